@@ -27,6 +27,22 @@
 (*   Format(s,v)            s.format(v)                                     *)
 (*   Poke(s,k,v)            s.val()[k] = v   (the probe that makes value    *)
 (*                          aliasing observable)                            *)
+(* Building / rebuilding routes (every public constructor / factory that is *)
+(* not a file or byte-stream reader, those are C05):                        *)
+(*   Mirror(src,dst,R)      dst = SparseMatrixCSCR(csr src, VectorMirror R) *)
+(*                          row selection: every non-empty ascending row    *)
+(*                          list R, incl. rows that are empty in src        *)
+(*   Conv(..., ctor)        dst = MT(src): the converting constructors of   *)
+(*                          csr / cscr / banded (op "convctor" enables it)  *)
+(*   Alloc(src,dst,ty,v)    dst = MT(rows, columns, used_elements[, used_   *)
+(*                          rows]) of csr / bcsr / cscr, DenseMatrix(m,n),  *)
+(*                          DenseMatrix(m,n,v): allocated, contents unspeci-*)
+(*                          fied (then typically filled by copy(src, true)) *)
+(*   Factory(src,dst,ty,o)  dst = SparseMatrixFactory(m,n).add(i,j,v) for   *)
+(*                          every stored entry of src in order o; make_csr()*)
+(*   ConvRev(src,dst)       src.convert_reverse(dst): the values of the csr *)
+(*                          matrix src written back into a csr / bcsr       *)
+(*                          matrix with the same (scalar) pattern           *)
 (* Each action is written from the documentation / contract of the call:    *)
 (* the post-state arrays are the canonical arrays (Storage!CSROf, ...) of   *)
 (* the matrix that the property demands (same matrix, transposed matrix,    *)
@@ -43,7 +59,8 @@ CONSTANTS NS,        \* number of slots
           Depth,     \* number of calls per emitted history
           Seeds,     \* set of seed family names (see SeedFam)
           SeedTypes, \* types the seed container is built with
-          Ops,       \* enabled calls: subset of {"conv","clone","transp","transpinto","tinplace","permute","layout","graph","copy","format","poke"}
+          Ops,       \* enabled calls: subset of {"conv","clone","transp","transpinto","tinplace","permute","layout","graph","copy","format","poke",
+                     \*                           "mirror","convctor","alloc","factory","convrev","permctor"}
           Types,     \* target types offered to conv/clone/layout/graph (the source type is always offered)
           PermSel,   \* "all" = every pair of permutations, "few" = rotations/reversal and their inverses
           Palette    \* 1 = injective non-zero values, 2 = values with stored zeros and repeats
@@ -161,7 +178,8 @@ Step(rec, w, Law(_)) ==
   /\ slots' = w.slots /\ mem' = w.mem
   /\ hist' = Append(hist, rec @@ [exp |-> ExpOf(w.slots, w.mem), law |-> Law(w)])
 Rec(op, src, dst) == [op |-> op, src |-> src, dst |-> dst, fmt |-> "", ty |-> "", mode |-> "", p |-> <<>>, q |-> <<>>,
-                      k |-> 0, v |-> 0, full |-> FALSE, grp |-> <<>>, gci |-> <<>>, noarr |-> FALSE]
+                      k |-> 0, v |-> 0, full |-> FALSE, grp |-> <<>>, gci |-> <<>>, noarr |-> FALSE, ctor |-> FALSE, tri |-> <<>>,
+                      pk |-> "", pv |-> <<>>, qk |-> "", qv |-> <<>>]
 
 Occupied(s) == slots[s].fmt # "free"
 Usable(s) == Occupied(s) /\ FullyDef(mem, slots[s])
@@ -194,6 +212,10 @@ ConvDesc(S, f, ty) ==
   ELSE CASE f = "csr"    -> IF P = {} THEN DNone("csr", ty, m, n, 1, 1) ELSE DCSR(ty, m, n, CSROf(m, n, D, P))
          [] f = "cscr"   -> DCSCR(ty, m, n, CSCROf(m, n, D, P, {e[1] : e \in P}))
          [] f = "banded" -> DBand(ty, m, n, BandedOf(m, n, D, {e[2] - e[1] + m - 1 : e \in P}, 0))
+\* dst.convert(src) on the container object in dst, or dst = MT(src): csr, cscr and banded have a converting constructor
+\* template <MT_> explicit MT(const MT_&) (it cannot be called with the very same type: that is the deleted copy constructor)
+CtorChoices(S, f, ty) ==
+  {FALSE} \cup (IF "convctor" \in Ops /\ f \in {"csr", "cscr", "banded"} /\ (f # S.fmt \/ ty # S.ty) THEN {TRUE} ELSE {})
 Conv ==
   /\ "conv" \in Ops /\ More
   /\ \E src \in 1..NS, dst \in 1..NS :
@@ -201,7 +223,8 @@ Conv ==
        /\ LET S == slots[src] IN
           \E f \in ConvTargets(S), ty \in TypesFor(S) :
             /\ ConvEnabled(S, f, ty)
-            /\ Step([Rec("conv", src, dst) EXCEPT !.fmt = f, !.ty = ty, !.mode = S.fmt], Install(slots, mem, dst, ConvDesc(S, f, ty)),
+            /\ \E ct \in CtorChoices(S, f, ty) :
+               Step([Rec("conv", src, dst) EXCEPT !.fmt = f, !.ty = ty, !.mode = S.fmt, !.ctor = ct], Install(slots, mem, dst, ConvDesc(S, f, ty)),
                     LAMBDA w : SAbs(w.mem, w.slots[dst]) = SAbs(mem, S) /\ SM(w.slots[dst]) = SM(S) /\ SN(w.slots[dst]) = SN(S))
 
 \* ---- Clone ------------------------------------------------------------------
@@ -222,9 +245,11 @@ Clone ==
   /\ \E src \in 1..NS, dst \in 1..NS :
        /\ Usable(src) /\ DstOK(src, dst)
        /\ LET S == slots[src] IN
-          \E mode \in Modes, ty \in TypesFor(S) :
-            Step([Rec("clone", src, dst) EXCEPT !.mode = mode, !.ty = ty], Install(slots, mem, dst, CloneDesc(S, mode, ty)),
-                 LAMBDA w : mode \in {"shallow", "weak", "deep"} => SAbs(w.mem, w.slots[dst]) = SAbs(mem, S))
+          \* dst.clone(src, mode), or (same type, op "convctor") dst = src.clone(mode), the member returning a new container
+          \E mode \in Modes, ty \in TypesFor(S), ct \in {FALSE} \cup (IF "convctor" \in Ops THEN {TRUE} ELSE {}) :
+            /\ (ct => ty = S.ty)
+            /\ Step([Rec("clone", src, dst) EXCEPT !.mode = mode, !.ty = ty, !.ctor = ct], Install(slots, mem, dst, CloneDesc(S, mode, ty)),
+                    LAMBDA w : mode \in {"shallow", "weak", "deep"} => SAbs(w.mem, w.slots[dst]) = SAbs(mem, S))
 
 \* ---- Transpose ----------------------------------------------------------------
 \* BCSR arrays (flattened blocks) of scalar matrix D with block pattern BP; csr is the 1x1 case
@@ -300,11 +325,44 @@ PermMem(S, arrs) ==
   ELSE [mem EXCEPT ![S.ix[1]] = [d |-> arrs.ci, def |-> TRUE],
                    ![S.ix[2]] = [d |-> arrs.rp, def |-> TRUE],
                    ![S.el[1]] = [d |-> FlatBlocks(arrs.va), def |-> TRUE]]
+\* The Adjacency::Permutation objects handed to permute can be built in several ways (ConstrType perm / inv_perm / swap /
+\* inv_swap from the respective 0-based array, or inverse() of the inverse permutation); all of them denote the same
+\* bijection.  With "permctor" in Ops the route is varied over the calls (a fixed function of the call, so that the number
+\* of histories stays the same); pv / qv are the constructor argument arrays.  Swap array of a permutation: the in-situ
+\* transpositions x[i] <-> x[swap[i]], i = 0..n-2 in this order, swap[i] >= i, produce y[i] = x[perm[i]].
+P0(p) == [i \in 1..Len(p) |-> p[i] - 1]
+SwapStep(x, a, b) == [k \in 1..Len(x) |-> IF k = a THEN x[b] ELSE IF k = b THEN x[a] ELSE x[k]]
+RECURSIVE SwapAcc(_, _, _, _)
+SwapAcc(p, i, a, sw) ==
+  IF i > Len(p) THEN sw
+  ELSE LET pos == CHOOSE k \in 1..Len(p) : a[k] = p[i] IN SwapAcc(p, i + 1, SwapStep(a, i, pos), Append(sw, pos - 1))
+SwapOfPerm(p) == SwapAcc(p, 1, Id(Len(p)), <<>>)          \* 0-based swap positions of the 1-based permutation p
+PermOfSwap(sw) ==                                          \* the 1-based permutation a 0-based swap array denotes
+  LET st[i \in 0..Len(sw)] == IF i = 0 THEN Id(Len(sw)) ELSE SwapStep(st[i - 1], i, sw[i] + 1) IN st[Len(sw)]
+PKinds == <<"perm", "inv_perm", "swap", "inv_swap", "inverse">>
+PHash(p) == LET F[i \in 0..Len(p)] == IF i = 0 THEN 0 ELSE F[i - 1] + i * p[i] IN F[Len(p)]
+PKindOf(S, p, q, salt) == IF "permctor" \in Ops THEN PKinds[((PHash(p) + 2 * PHash(q) + S.ue + Len(hist) + salt) % 5) + 1] ELSE "perm"
+PArg(kind, p) ==
+  CASE kind = "perm"     -> P0(p)
+    [] kind = "inv_perm" -> P0(PermInv(p))
+    [] kind = "swap"     -> SwapOfPerm(p)
+    [] kind = "inv_swap" -> SwapOfPerm(PermInv(p))
+    [] kind = "inverse"  -> P0(PermInv(p))
+\* the permutation that route `kind` builds from the argument array v (must be p again)
+PBuilt(kind, v) ==
+  LET v1 == [i \in 1..Len(v) |-> v[i] + 1] IN
+  CASE kind = "perm"     -> v1
+    [] kind = "inv_perm" -> PermInv(v1)
+    [] kind = "swap"     -> PermOfSwap(v)
+    [] kind = "inv_swap" -> PermInv(PermOfSwap(v))
+    [] kind = "inverse"  -> PermInv(v1)
 PermStep(s, S, p, q, D2) ==
-  Step([Rec("permute", s, s) EXCEPT !.p = p, !.q = q, !.noarr = NoArrays(S)],
+  LET pk == PKindOf(S, p, q, 0)  qk == PKindOf(S, q, p, 3) IN
+  Step([Rec("permute", s, s) EXCEPT !.p = p, !.q = q, !.noarr = NoArrays(S), !.pk = pk, !.pv = PArg(pk, p), !.qk = qk, !.qv = PArg(qk, q)],
        [slots |-> slots, mem |-> PermMem(S, BlockArrs(S.m, S.n, S.bh, S.bw, D2, PermBP2(S, p, q)))],
        LAMBDA w : /\ SAbs(w.mem, S) = D2
-                  /\ PermMat(SM(S), SN(S), D2, ExpandPerm(PermInv(p), S.bh), ExpandPerm(PermInv(q), S.bw)) = SAbs(mem, S))
+                  /\ PermMat(SM(S), SN(S), D2, ExpandPerm(PermInv(p), S.bh), ExpandPerm(PermInv(q), S.bw)) = SAbs(mem, S)
+                  /\ PBuilt(pk, PArg(pk, p)) = p /\ PBuilt(qk, PArg(qk, q)) = q)
 Permute ==
   /\ "permute" \in Ops /\ More
   /\ \E s \in 1..NS :
@@ -387,6 +445,95 @@ Poke ==
                  LAMBDA w : \A t \in 1..NS : Occupied(t) /\ FullyDef(mem, slots[t]) /\ c \notin ChunksOf(slots[t])
                                                => SAbs(w.mem, slots[t]) = SAbs(mem, slots[t]))
 
+
+\* ---- Mirror: dst = SparseMatrixCSCR(csr, mirror) ---------------------------------
+\* "Creates a matrix with selected rows from a given csr matrix": the result lists exactly the rows of the mirror (also
+\* those without entries in the source, as an empty compressed row) and represents the source with all other rows zeroed.
+\* The mirror indices are ascending (the CSCR format keeps its row numbers sorted, operator() relies on it) and there is
+\* at least one (XASSERT num_indices() > 0).  Data and index type of source, mirror and result coincide.
+RowRestrict(m, n, D, R) == [i \in 1..m |-> [j \in 1..n |-> IF i \in R THEN D[i][j] ELSE 0]]
+NonEmptyRows(P) == {e[1] : e \in P}
+MirrorSets(m, P) ==
+  IF m <= 3 \/ PermSel = "all" THEN (SUBSET (1..m)) \ {{}}
+  ELSE ({1..m, NonEmptyRows(P), {1}, {m}, (1..m) \ {m}} \cup {{i} : i \in (1..m) \ NonEmptyRows(P)}) \ {{}}
+MirrorDesc(S, R) ==
+  LET P == {e \in BPat(mem, S) : e[1] \in R} IN DCSCR(S.ty, S.m, S.n, CSCROf(S.m, S.n, SAbs(mem, S), P, R))
+MirrorOp ==
+  /\ "mirror" \in Ops /\ More
+  /\ \E src \in 1..NS, dst \in 1..NS :
+       /\ Usable(src) /\ DstOK(src, dst) /\ slots[src].fmt = "csr" /\ slots[src].m >= 1
+       /\ LET S == slots[src] IN
+          \E R \in MirrorSets(S.m, BPat(mem, S)) :
+            Step([Rec("mirror", src, dst) EXCEPT !.fmt = "cscr", !.ty = S.ty, !.p = SetToSortSeq(R, <)],
+                 Install(slots, mem, dst, MirrorDesc(S, R)),
+                 LAMBDA w : LET T == w.slots[dst] IN
+                            /\ SAbs(w.mem, T) = RowRestrict(S.m, S.n, SAbs(mem, S), R)
+                            /\ (NonEmptyRows(BPat(mem, S)) \subseteq R => SAbs(w.mem, T) = SAbs(mem, S))
+                            /\ T.m = S.m /\ T.n = S.n
+                            /\ BPat(w.mem, T) = {e \in BPat(mem, S) : e[1] \in R}
+                            /\ Dat(w.mem, T.ix[3]) = [k \in 1..Cardinality(R) |-> SetToSortSeq(R, <)[k] - 1])
+
+\* ---- Alloc: the allocating constructors -----------------------------------------------
+\* MT(rows, columns, used_elements[, used_rows]): dimensions and array lengths as requested, contents unspecified
+\* (XASSERT rows, columns # 0).  DenseMatrix(m, n) likewise; DenseMatrix(m, n, v) has every entry = v.
+AllocDesc(S, ty, v) ==
+  LET ur == IF NoArrays(S) THEN 0 ELSE Len(Dat(mem, S.ix[3])) IN
+  CASE S.fmt = "csr"   -> Desc("csr", ty, S.m, S.n, 1, 1, S.ue, <<Undef(S.ue)>>, <<Undef(S.ue), Undef(S.m + 1)>>)
+    [] S.fmt = "bcsr"  -> Desc("bcsr", ty, S.m, S.n, S.bh, S.bw, S.ue, <<Undef(S.ue * S.bh * S.bw)>>, <<Undef(S.ue), Undef(S.m + 1)>>)
+    [] S.fmt = "cscr"  -> Desc("cscr", ty, S.m, S.n, 1, 1, S.ue, <<Undef(S.ue)>>, <<Undef(S.ue), Undef(ur + 1), Undef(ur)>>)
+    [] S.fmt = "dense" -> IF v = 0 THEN Desc("dense", ty, S.m, S.n, 1, 1, S.m * S.n, <<Undef(S.m * S.n)>>, <<>>)
+                          ELSE DDense(ty, S.m, S.n, [i \in 1..S.m |-> [j \in 1..S.n |-> v]])
+AllocOp ==
+  /\ "alloc" \in Ops /\ More
+  /\ \E src \in 1..NS, dst \in 1..NS :
+       /\ Occupied(src) /\ DstOK(src, dst) /\ slots[src].fmt \in {"csr", "bcsr", "cscr", "dense"}
+       /\ slots[src].m >= 1 /\ slots[src].n >= 1
+       /\ LET S == slots[src] IN
+          \E ty \in TypesFor(S), v \in (IF S.fmt = "dense" THEN {0, 7} ELSE {0}) :
+            Step([Rec("alloc", src, dst) EXCEPT !.fmt = S.fmt, !.ty = ty, !.v = v,
+                                                 !.k = IF S.fmt = "cscr" /\ ~NoArrays(S) THEN Len(Dat(mem, S.ix[3])) ELSE 0],
+                 Install(slots, mem, dst, AllocDesc(S, ty, v)),
+                 LAMBDA w : LET T == w.slots[dst] IN
+                            /\ T.m = S.m /\ T.n = S.n /\ T.ue = S.ue
+                            /\ (v # 0 => SAbs(w.mem, T) = [i \in 1..S.m |-> [j \in 1..S.n |-> v]]))
+
+\* ---- Factory: SparseMatrixFactory(m, n), add(i, j, a_ij) ..., make_csr() -------------------
+\* the stored entries of src (any format) are added one by one in some order; the result is the CSR matrix with
+\* exactly these entries (allocated also when there is none: rows + 1 zero row pointers)
+LexLess(a, b) == a[1] < b[1] \/ (a[1] = b[1] /\ a[2] < b[2])
+ColLess(a, b) == a[2] < b[2] \/ (a[2] = b[2] /\ a[1] < b[1])
+EntryOrders(P) == {SetToSortSeq(P, LexLess), SetToSortSeq(P, LAMBDA a, b : LexLess(b, a)), SetToSortSeq(P, ColLess)}
+FactoryOp ==
+  /\ "factory" \in Ops /\ More
+  /\ \E src \in 1..NS, dst \in 1..NS :
+       /\ Usable(src) /\ DstOK(src, dst) /\ SM(slots[src]) >= 1 /\ SN(slots[src]) >= 1
+       /\ LET S == slots[src]  D == SAbs(mem, S)  P == SPat(mem, S)  m == SM(S)  n == SN(S) IN
+          \E ty \in TypesFor(S), es \in EntryOrders(P) :
+            Step([Rec("factory", src, dst) EXCEPT !.fmt = "csr", !.ty = ty, !.k = m, !.v = n,
+                                                   !.tri = [k \in 1..Len(es) |-> <<es[k][1] - 1, es[k][2] - 1, D[es[k][1]][es[k][2]]>>]],
+                 Install(slots, mem, dst, DCSR(ty, m, n, CSROf(m, n, D, P))),
+                 LAMBDA w : LET T == w.slots[dst] IN
+                            /\ SAbs(w.mem, T) = D /\ T.m = m /\ T.n = n /\ BPat(w.mem, T) = P)
+
+\* ---- ConvRev: src.convert_reverse(dst) ---------------------------------------------------
+\* "Assigns own matrix values to target matrix", assuming that the csr matrix src was created from dst earlier so that
+\* both (non-zero) layouts match: dst (csr or bcsr of the same data type) keeps its layout, its value array is
+\* rewritten in place (seen through every slot sharing it) and dst then represents the same matrix as src.
+ConvRevOp ==
+  /\ "convrev" \in Ops /\ More
+  /\ \E src \in 1..NS, dst \in 1..NS :
+       /\ src # dst /\ Usable(src) /\ Occupied(dst) /\ IxDef(mem, slots[dst])
+       /\ slots[src].fmt = "csr" /\ slots[dst].fmt \in {"csr", "bcsr"}
+       /\ ~NoArrays(slots[src]) /\ ~NoArrays(slots[dst])
+       /\ DTof(slots[src].ty) = DTof(slots[dst].ty)
+       /\ SM(slots[src]) = SM(slots[dst]) /\ SN(slots[src]) = SN(slots[dst])
+       /\ SPat(mem, slots[src]) = SPat(mem, slots[dst])
+       /\ LET S == slots[src]  T == slots[dst]
+              arrs == BCSROf(T.m, T.n, T.bh, T.bw, SAbs(mem, S), BPat(mem, T))
+          IN Step(Rec("convrev", src, dst),
+                  [slots |-> slots, mem |-> [mem EXCEPT ![T.el[1]] = [d |-> FlatBlocks(arrs.va), def |-> TRUE]]],
+                  LAMBDA w : SAbs(w.mem, T) = SAbs(mem, S) /\ BPat(w.mem, T) = BPat(mem, T))
+
 \* ---- seeds -----------------------------------------------------------------------
 AllPats(m, n) == SUBSET ((1..m) \X (1..n))
 CsrSeeds(ty, m, n, Pats) ==
@@ -449,6 +596,7 @@ Init ==
        /\ hist = <<Rec("seed", 0, 1) @@ [exp |-> <<[slot |-> 1, st |-> Proj(w.mem, w.slots[1])]>>, law |-> TRUE]>>
 
 Next == Conv \/ Clone \/ Transp \/ TranspInto \/ TranspInplace \/ Permute \/ LayoutOp \/ GraphOp \/ CopyOp \/ FormatOp \/ Poke
+        \/ MirrorOp \/ AllocOp \/ FactoryOp \/ ConvRevOp
 Spec == Init /\ [][Next]_vars
 
 \* ---- invariants of the specification itself ----------------------------------------
